@@ -282,3 +282,12 @@ package raft
 //@   val z = makeAppendEntriesRequest(y)
 //@   ensures [fields] z.LeaderID == x.LeaderID && z.Term == x.Term && z.LeaderCommit == x.LeaderCommit && z.PrevLogIndex == x.PrevLogIndex && z.PrevLogTerm == x.PrevLogTerm
 //@   ensures [entries] len(z.Entries) == len(x.Entries) && forall j int :: 0 <= j && j < len(x.Entries) ==> z.Entries[j] != nil && sameEntry(z.Entries[j], x.Entries[j])
+
+// ===========================================================================================
+// Configuration transitions
+// ===========================================================================================
+
+//@ func Raft.nextConfiguration
+//@   flags inline lockheld
+//@   loop range r.configuration.Members invariant [I6b] forall fid string :: fid in r.followers ==> r.followers[fid] != nil
+//@   loop range next.Members invariant [I6b] forall fid string :: fid in r.followers ==> r.followers[fid] != nil
